@@ -46,17 +46,22 @@ First ==
     [] mode = "empty-cut" -> RRHead(0) \o NatRd
     [] OTHER -> RRHead(Len(NatRd)) \o NatRd
 
-AnCount == CASE mode = "count+1" -> 4 [] mode = "count-1" -> 2 [] OTHER -> 3
+\* the record under test is the answer, the sentinels are one authority and one additional record; the count that
+\* lies is the additional-records count; half of the messages carry the TC and AA flags (a truncated message is
+\* still rejected when its counts or lengths run past its end)
+ArCount == CASE mode = "count+1" -> 2 [] mode = "count-1" -> 0 [] OTHER -> 1
+FlagsOf == IF t % 2 = 0 THEN {"qr"} ELSE {"qr", "tc", "aa"}
 Usable == Len(NatRd) + delta >= 0
 \* a question in front, its QTYPE / QCLASS / unicast bit spread over the record types: specific types, the
 \* five QTYPE specials (IXFR AXFR MAILB MAILA ANY), classes IN / CH / ANY
 QSpecials == <<1, 251, 252, 253, 254, 255, 65, 16>>
 Quest == [name |-> <<<<113>>, La>>, qtype |-> QSpecials[(t % 8) + 1], qclass |-> <<1, 3, 255>>[(t % 3) + 1], unicast |-> (t % 2 = 1)]
-Msg == HdrEncode(9, {"qr"}, 0, 0, 1, AnCount, 0, 0) \o EncQuestion(Quest) \o First \o Sentinel(1) \o Sentinel(2)
+Msg == HdrEncode(9, FlagsOf, 0, 0, 1, 1, 1, ArCount) \o EncQuestion(Quest) \o First \o Sentinel(1) \o Sentinel(2)
 
 \* sanity of the generator itself: the exact variant decodes to three records
-EmptyOK == (mode = "empty" /\ t # 41) => LET d == RefDecode(Msg) IN d.ok /\ d.exact /\ Len(d.pkt.an) = 3 /\ d.end = Len(Msg)
-ExactOK == (mode = "exact") => LET d == RefDecode(Msg) IN d.ok /\ d.exact /\ Len(d.pkt.an) = 3 /\ d.end = Len(Msg)
+Entries(d) == Len(d.pkt.an) + Len(d.pkt.ns) + Len(d.pkt.ar) + (IF d.pkt.opt = <<>> THEN 0 ELSE 1)
+EmptyOK == (mode = "empty" /\ t # 41) => LET d == RefDecode(Msg) IN d.ok /\ d.exact /\ Entries(d) = 3 /\ d.end = Len(Msg)
+ExactOK == (mode = "exact") => LET d == RefDecode(Msg) IN d.ok /\ d.exact /\ Entries(d) = 3 /\ d.end = Len(Msg)
 
 Emit == Usable => PrintT(<<"CASE", ToJson([msg |-> Msg, t |-> t, delta |-> delta, mode |-> mode])>>)
 =============================================================================
